@@ -150,7 +150,7 @@ int main(int argc, char** argv) {
   std::string fits = prefix + ".table.fits";
   std::map<int, long> h_ndim, h_naux, h_n, h_order; long h_conv = 0, h_noconv = 0, h_long = 0, h_short = 0, lines = 0;
   std::map<int, long> h_card;  // keylen+vallen histogram
-  long reserved_disagree = 0, dealloc_mismatch = 0, aux_cross_fail = 0, h_skipped0 = 0;
+  long reserved_disagree = 0, dealloc_mismatch = 0, aux_cross_fail = 0, h_skipped0 = 0, h_rejected = 0;
   bool fast0 = factorial0_is_fast();
 
   for (long c = 0; c < ncases; c++) {
@@ -243,7 +243,8 @@ int main(int argc, char** argv) {
     }
     for (size_t q = 0; q < cfgs.size(); q++) {
       Cfg g = cfgs[q];
-      size_t est, estdef;
+      size_t est = 0, estdef = 0;
+      try {
       if (!g.doconv) { est = CTable::estimateMemory(fits); estdef = psv::Table::estimateMemory(fits); }
       else { est = CTable::estimateMemory(fits, g.n, g.dim); estdef = psv::Table::estimateMemory(fits, g.n, g.dim); }
       L.reset();
@@ -271,14 +272,19 @@ int main(int argc, char** argv) {
       fprintf(fi, " |");
       for (size_t e = 0; e < evConv.size(); e++) fprintf(fi, " %c%zu", evConv[e].kind, evConv[e].bytes);
       fprintf(fi, "\n");
+      } catch (std::exception& ex) {
+        // the library refused the file (possible for profile I once the reader validates shapes)
+        std::string m = ex.what(); for (size_t z = 0; z < m.size(); z++) if (m[z] == '\n') m[z] = ' ';
+        fprintf(fc, "R\n"); fprintf(fi, "rejected %s\n", m.c_str()); h_rejected++;
+      }
       lines++;
     }
   }
   unlink(fits.c_str());
   fprintf(fs, "{\"profile\":\"%c\",\"tables\":%ld,\"lines\":%ld,\"no_convolution\":%ld,\"convolutions\":%ld,\"short_keys\":%ld,\"hierarch_keys\":%ld,"
               "\"reserved_rule_disagreements\":%ld,\"dealloc_size_mismatch_during_load_or_convolve\":%ld,\"aux_cross_check_failures\":%ld,"
-              "\"sizeof_counting_table\":%zu,\"sizeof_default_table\":%zu,\"order0_and_1knot_convolutions_generated\":%s,\"skipped_order0_convolutions\":%ld",
-          profile, ncases, lines, h_noconv, h_conv, h_short, h_long, reserved_disagree, dealloc_mismatch, aux_cross_fail, sizeof(CTable), sizeof(psv::Table), fast0 ? "true" : "false", h_skipped0);
+              "\"sizeof_counting_table\":%zu,\"sizeof_default_table\":%zu,\"order0_and_1knot_convolutions_generated\":%s,\"skipped_order0_convolutions\":%ld,\"rejected_by_library\":%ld",
+          profile, ncases, lines, h_noconv, h_conv, h_short, h_long, reserved_disagree, dealloc_mismatch, aux_cross_fail, sizeof(CTable), sizeof(psv::Table), fast0 ? "true" : "false", h_skipped0, h_rejected);
   struct H { const char* name; std::map<int, long>* m; } hs[] = {{"ndim", &h_ndim}, {"naux_decade", &h_naux}, {"kernel_knots", &h_n}, {"order", &h_order}, {"keylen_plus_vallen_decade", &h_card}};
   for (size_t k = 0; k < sizeof(hs) / sizeof(hs[0]); k++) {
     fprintf(fs, ",\"%s\":{", hs[k].name);
